@@ -24,6 +24,7 @@ func c12ExtraItems() []Item {
 	return []Item{
 		{Name: "custom+preprocess", MaxDevs: -1, Run: c12ExtraScenario},
 		{Name: "schemas-over-named-types", MaxDevs: -1, Run: c12NamedTypesScenario},
+		{Name: "field-less-struct-schemas", MaxDevs: -1, Run: c12FieldlessScenario},
 	}
 }
 
@@ -342,6 +343,160 @@ func c12NamedTypesScenario(x *mc.X) *mc.Outcome {
 	if !eqStrings(want, log) {
 		x.Note("mode %d (0 Parse, 1 Validate), placement %d (0 top, 1 struct fields, 2 slice elements), callbacks attached with %d (0 TestFunc, 1 Test(z.TestFunc), 2 PostTransform)", mode, place, how)
 		out.Viol = append(out.Viol, &mc.Violation{Key: fmt.Sprintf("C12:named-type-argument:%d", how), What: "a callback of a schema over a named type did not receive the node's own (named-type) value", Expected: fmt.Sprint(want), Observed: fmt.Sprint(log)})
+	}
+	return out
+}
+
+// Struct schemas without fields — a literal z.Struct(z.Schema{}), z.Struct(nil), or what Pick() / Omit(all keys)
+// leave of a larger schema — are whole-object validators: their struct-level tests and PostTransforms are called
+// like any other node's, with the pointer to their own destination, in both modes, at every placement.
+type c12Hollow struct{ Note string }
+
+type c12HollowHolder struct {
+	E c12Hollow
+	P *c12Hollow
+	L []c12Hollow
+}
+
+func c12FieldlessScenario(x *mc.X) *mc.Outcome {
+	zh.Reset()
+	zh.Install(x, zh.PoolLIFO, zh.OrderFree)
+	how := x.Choose(4, "how the field-less schema came about")
+	testFails := x.Bool("test fails")
+	nposts := x.Choose(3, "posts")
+	place := x.Choose(4, "placement") // 0 top, 1 field, 2 elements, 3 behind pointer
+	mode := x.Choose(2, "mode")
+	var log []string
+	var args []any
+	decorate := func(s *z.StructSchema) *z.StructSchema {
+		s.TestFunc(func(v any, c z.Ctx) bool {
+			args = append(args, v)
+			log = append(log, "test")
+			return !testFails
+		}, z.IssueCode("whole"))
+		for i := 0; i < nposts; i++ {
+			i := i
+			s.PostTransform(func(v any, c z.Ctx) error {
+				args = append(args, v)
+				log = append(log, fmt.Sprintf("post%d", i))
+				return nil
+			})
+		}
+		return s
+	}
+	var hollow *z.StructSchema
+	switch how {
+	case 0:
+		hollow = decorate(z.Struct(z.Schema{}))
+	case 1:
+		hollow = decorate(z.Struct(nil))
+	case 2:
+		hollow = decorate(z.Struct(z.Schema{"note": z.String(), "zz": z.Int()})).Pick()
+	default:
+		hollow = decorate(z.Struct(z.Schema{"note": z.String()})).Omit("note")
+	}
+	var issues []string
+	collect := func(m z.ZogIssueMap) {
+		for _, k := range sortedKeys(m) {
+			if k != "$first" {
+				for _, is := range m[k] {
+					issues = append(issues, k+"|"+is.Code)
+				}
+			}
+		}
+	}
+	var h c12HollowHolder
+	var top c12Hollow
+	var nodes []any
+	visits := 1
+	pmsg := func() (msg string) {
+		defer func() {
+			if r := recover(); r != nil {
+				msg = firstLine(fmt.Sprint(r))
+			}
+		}()
+		switch place {
+		case 0:
+			if mode == 0 {
+				collect(hollow.Parse(map[string]any{"other": 1}, &top))
+			} else {
+				collect(hollow.Validate(&top))
+			}
+			nodes = []any{&top}
+		case 1:
+			s := z.Struct(z.Schema{"e": hollow})
+			if mode == 0 {
+				collect(s.Parse(map[string]any{"e": map[string]any{"other": 1}}, &h))
+			} else {
+				collect(s.Validate(&h))
+			}
+			nodes = []any{&h.E}
+		case 2:
+			s := z.Struct(z.Schema{"l": z.Slice(hollow)})
+			visits = 2
+			if mode == 0 {
+				collect(s.Parse(map[string]any{"l": []any{map[string]any{"other": 1}, map[string]any{}}}, &h))
+			} else {
+				h.L = []c12Hollow{{Note: "x"}, {}}
+				collect(s.Validate(&h))
+			}
+			if len(h.L) == 2 {
+				nodes = []any{&h.L[0], &h.L[1]}
+			}
+		default:
+			s := z.Struct(z.Schema{"p": z.Ptr(hollow)})
+			if mode == 0 {
+				collect(s.Parse(map[string]any{"p": map[string]any{"other": 1}}, &h))
+			} else {
+				h.P = &c12Hollow{Note: "x"}
+				collect(s.Validate(&h))
+			}
+			nodes = []any{h.P}
+		}
+		return ""
+	}()
+	zh.Reset()
+	var want, wantIssues []string
+	paths := map[int][]string{0: {"$root"}, 1: {"e"}, 2: {"l[0]", "l[1]"}, 3: {"p"}}[place]
+	for v := 0; v < visits; v++ {
+		want = append(want, "test")
+		if testFails {
+			wantIssues = append(wantIssues, paths[v]+"|whole")
+		} else {
+			for i := 0; i < nposts; i++ {
+				want = append(want, fmt.Sprintf("post%d", i))
+			}
+		}
+	}
+	hows := []string{"Struct(Schema{})", "Struct(nil)", "Struct{note,zz}.Pick()", "Struct{note}.Omit(note)"}
+	out := &mc.Outcome{Traces: 1, Nontrivial: true, Sig: fmt.Sprintf("hollow|%d|%v|%d|%d|%d", how, testFails, nposts, place, mode)}
+	out.Sample = map[string]any{"schema": hows[how], "test_fails": testFails, "posts": nposts, "placement": place, "mode": mode, "callbacks": log, "issues": issues}
+	fail := func(key, what, exp, got string) {
+		x.Note("field-less schema %s with one struct-level test (fails=%v) and %d PostTransforms; placement %d (0 top, 1 field, 2 two elements, 3 behind pointer); mode %d (0 Parse, 1 Validate)", hows[how], testFails, nposts, place, mode)
+		out.Viol = append(out.Viol, &mc.Violation{Key: key, What: what, Expected: exp, Observed: got})
+	}
+	switch {
+	case pmsg != "":
+		fail("C12:fieldless:panic", "a field-less struct schema panicked", "no panic", pmsg)
+	case !eqStrings(log, want):
+		fail(fmt.Sprintf("C12:fieldless:callbacks:%d", mode), "the callbacks of a field-less struct schema were not called as for any other node", fmt.Sprint(want), fmt.Sprint(log))
+	case !eqStrings(issues, wantIssues):
+		fail(fmt.Sprintf("C12:fieldless:issues:%d", mode), "the failing struct-level test of a field-less schema is not reported at its node's path", fmt.Sprint(wantIssues), fmt.Sprint(issues))
+	default:
+		// every callback received the pointer to its own destination node
+		i := 0
+		for v := 0; v < visits && v < len(nodes); v++ {
+			per := 1
+			if !testFails {
+				per += nposts
+			}
+			for k := 0; k < per && i < len(args); k, i = k+1, i+1 {
+				if args[i] != nodes[v] {
+					fail(fmt.Sprintf("C12:fieldless:argument:%d", mode), "a callback of a field-less struct schema did not receive the pointer to its own destination", fmt.Sprintf("%p", nodes[v]), fmt.Sprintf("%p", args[i]))
+					return out
+				}
+			}
+		}
 	}
 	return out
 }
